@@ -87,13 +87,14 @@ func Harness_C19_DecodeBoard5() { harnessDecodeBoard(5) }
 // near-valid: a valid board with up to two runes replaced by arbitrary runes
 func harnessDecodeSplice(k int) {
 	base := []rune("r3k2r/8/8/8/8/8/8/R3K2R")
+	// one representative of every kind of position (piece, run length inside a rank, rank
+	// separator, whole-rank run length, first rune); quick and the two-rune splice use these,
+	// the thorough one-rune splice uses every position
+	repr := []int{0, 1, 5, 6, 19}
 	for j := 0; j < k; j++ {
 		var i int
-		if verifQuick() {
-			// quick: one representative of every kind of position (piece, run length inside a
-			// rank, rank separator, whole-rank run length, first rune)
-			quick := []int{0, 1, 5, 6, 19}
-			i = quick[int(verifSplit(uint64(nondetU8("pos")), 0, uint64(len(quick)-1)))]
+		if verifQuick() || k > 1 {
+			i = repr[int(verifSplit(uint64(nondetU8("pos")), 0, uint64(len(repr)-1)))]
 		} else {
 			i = int(verifSplit(uint64(nondetU8("pos")), 0, uint64(len(base)-1)))
 		}
